@@ -14,6 +14,7 @@ mod c08;
 mod c07;
 mod refbmca;
 mod c05;
+mod c06;
 
 use engine::Ctx;
 
@@ -76,6 +77,8 @@ fn main() {
         ("C07", Some(p)) => c07::replay(&ctx, p),
         ("C05", None) => c05::run(&ctx),
         ("C05", Some(p)) => c05::replay(&ctx, p),
+        ("C06", None) => c06::run(&ctx),
+        ("C06", Some(p)) => c06::replay(&ctx, p),
         ("C16", None) => c16::run(&ctx),
         ("C16", Some(p)) => c16::replay(&ctx, p),
         _ => {
